@@ -109,6 +109,15 @@ func checkC08(p *Prog, r *Report) {
 			if inLoop != nil {
 				if why := fillLoopOK(f, inLoop, call, nV, errV); why == "" {
 					r.OK("READ", key, at, "fill loop: re-issued for the remaining window, count accounted before the error is examined")
+					// (ii) a satisfied fill loop reports success: the error that arrived together with the last byte
+					// (io.EOF from a reader that delivers data and EOF at once) must not be returned when everything
+					// asked for was read
+					k2 := fmt.Sprintf("%s | fill loop reports nil when the count is satisfied", fnName(f))
+					if w := satisfiedExitErr(p, f, inLoop, errV); w == "" {
+						r.OK("READ", k2, at, "the exit taken when the count is satisfied returns a nil error")
+					} else {
+						r.Bad("READ", k2, at, w)
+					}
 				} else {
 					r.Bad("READ", key, at, "Read inside a loop that is not a sound fill loop: "+why)
 				}
@@ -125,6 +134,87 @@ func checkC08(p *Prog, r *Report) {
 	r.OK("BUFDEP", "decode path | (*bufio.Reader).Buffered", "-", fmt.Sprintf("%d functions scanned", len(fs)))
 	ruleSeekRel(p, r, fs)
 	r.Floor("READ", 4)
+}
+
+// satisfiedExitErr: on the loop exit that is not an error test (the count test), does a return hand back the error
+// of the last Read? "" if not.
+func satisfiedExitErr(p *Prog, f *ssa.Function, l *Loop, errV *ssa.Extract) string {
+	if errV == nil {
+		return ""
+	}
+	// values that may carry the Read's error: errV, phis over it, loads of a cell it is stored into
+	carry := map[ssa.Value]bool{errV: true}
+	cells := map[ssa.Value]bool{}
+	for ch := true; ch; {
+		ch = false
+		eachInstr(f, func(_ *ssa.BasicBlock, _ int, in ssa.Instruction) {
+			switch x := in.(type) {
+			case *ssa.Phi:
+				if !carry[x] {
+					for _, e := range x.Edges {
+						if carry[e] {
+							carry[x], ch = true, true
+						}
+					}
+				}
+			case *ssa.Store:
+				if carry[x.Val] && !cells[x.Addr] {
+					cells[x.Addr], ch = true, true
+				}
+			case *ssa.UnOp:
+				if x.Op == token.MUL && cells[x.X] && !carry[x] {
+					carry[x], ch = true, true
+				}
+			}
+		})
+	}
+	bad := ""
+	for b := range l.Blocks {
+		ifi, ok := b.Instrs[len(b.Instrs)-1].(*ssa.If)
+		if !ok {
+			continue
+		}
+		if isErr, _ := errBranch(ifi); isErr {
+			continue
+		}
+		for _, s := range b.Succs {
+			if l.Blocks[s] {
+				continue
+			}
+			// the count test leaves the loop here: follow to the returns, not through further error tests' failing sides
+			seen := map[*ssa.BasicBlock]bool{s: true}
+			st := []*ssa.BasicBlock{s}
+			for len(st) > 0 && bad == "" {
+				x := st[len(st)-1]
+				st = st[:len(st)-1]
+				if ret, ok := x.Instrs[len(x.Instrs)-1].(*ssa.Return); ok {
+					n := len(ret.Results)
+					if n > 0 && isErrorType(ret.Results[n-1].Type()) {
+						ev, _ := spilledResult(ret.Results[n-1], x)
+						if carry[ev] {
+							bad = fmt.Sprintf("after the count test at %s leaves the loop, the return at %s hands back the error of the last Read: data that arrives together with io.EOF is reported as a failure although everything asked for was read", p.posStr(instrPos(ifi)), p.posStr(instrPos(ret)))
+						}
+					}
+					continue
+				}
+				succs := x.Succs
+				if i2, ok := x.Instrs[len(x.Instrs)-1].(*ssa.If); ok {
+					if isErr, nilIdx := errBranch(i2); isErr {
+						// only the nil side keeps the "satisfied and err possibly set" state interesting: on the
+						// non-nil side the function reports an error it tested itself — that IS the defect too
+						_ = nilIdx
+					}
+				}
+				for _, y := range succs {
+					if !seen[y] {
+						seen[y] = true
+						st = append(st, y)
+					}
+				}
+			}
+		}
+	}
+	return bad
 }
 
 func boolInt(b bool) int {
